@@ -759,6 +759,180 @@ pub fn synthetic_item(root: u64, k: u64, acc: &mut Acc, fps: &Distinct) {
     }
 }
 
+/// Run-length text of a 0/1 vector ("3x0,2x1,...") for replay files of long sparse curves.
+fn rle(inc: &[bool]) -> String {
+    let mut out: Vec<String> = Vec::new();
+    let mut i = 0;
+    while i < inc.len() {
+        let mut j = i;
+        while j < inc.len() && inc[j] == inc[i] {
+            j += 1;
+        }
+        out.push(format!("{}x{}", j - i, inc[i] as u8));
+        i = j;
+    }
+    out.join(",")
+}
+
+fn un_rle(text: &str) -> Option<Vec<bool>> {
+    let mut v = Vec::new();
+    for part in text.split(',') {
+        let (n, b) = part.trim().split_once('x')?;
+        let n: usize = n.parse().ok()?;
+        if n > 1_000_000 {
+            return None;
+        }
+        for _ in 0..n {
+            v.push(b.trim() == "1");
+        }
+    }
+    Some(v)
+}
+
+/// `claimed` is the least t with `ps(t) >= dem` (for a monotone `ps`)?
+fn is_least_inverse(ps: &dyn Fn(u64) -> Option<u64>, dem: u64, claimed: u64) -> Option<Result<(), String>> {
+    let at = ps(claimed)?;
+    if at < dem {
+        return Some(Err(format!(
+            "provided_service({}) = {} < demand {}",
+            claimed, at, dem
+        )));
+    }
+    if claimed > 0 {
+        let before = ps(claimed - 1)?;
+        if before >= dem {
+            return Some(Err(format!(
+                "provided_service({}) = {} already meets demand {}",
+                claimed - 1,
+                before,
+                dem
+            )));
+        }
+    }
+    Some(Ok(()))
+}
+
+/// 4e. (ride-along, pure) sparse supplies and large demands: the default `service_time` needs
+/// thousands of rounds here.  Half of the items use a user-defined sparse curve, half a real
+/// `Periodic` / `Constrained` reservation with a long period (default and specialised inverse).
+pub fn sparse_item(root: u64, k: u64, acc: &mut Acc, fps: &Distinct) {
+    let mut rng = Rng::new(Rng::run_seed(root, "C09-sparse", k));
+    acc.counters.inc("runs");
+    acc.counters.inc("runs_nontrivial");
+    acc.counters.inc("sparse_supplies");
+    let mut demands: Vec<u64> = (0..=6).collect();
+    for _ in 0..10 {
+        demands.push(rng.range(7, 60));
+    }
+    for _ in 0..8 {
+        demands.push(rng.range(60, 600));
+    }
+    if rng.chance(1, 2) {
+        // user-defined curve: few short rising runs separated by long plateaus
+        let mut inc: Vec<bool> = Vec::new();
+        let pairs = rng.range(1, 3);
+        for _ in 0..pairs {
+            let gap = match rng.below(3) {
+                0 => rng.range(20, 150),
+                1 => rng.range(150, 600),
+                _ => rng.range(400, 2500),
+            };
+            let up = rng.range(1, 4);
+            let gap_first = rng.chance(3, 4);
+            if gap_first {
+                inc.extend(std::iter::repeat(false).take(gap as usize));
+            }
+            inc.extend(std::iter::repeat(true).take(up as usize));
+            if !gap_first {
+                inc.extend(std::iter::repeat(false).take(gap as usize));
+            }
+        }
+        let sbf = SynthSbf::new(inc.clone());
+        let text = rle(&inc);
+        let fpv = hash_str(&text) ^ 0x52;
+        fps.insert(fpv);
+        acc.digest_add(fpv);
+        for dem in demands {
+            let claimed = guarded(|| du(sbf.service_time(s(dem))));
+            let verdict = match claimed {
+                None => Err("default service_time panicked".to_string()),
+                Some(c) => is_least_inverse(&|t| Some(sbf.value(t)), dem, c).unwrap(),
+            };
+            if let Err(why) = verdict {
+                acc.report(Report {
+                    order: (k, dem),
+                    key: "default service_time is not the least inverse (sparse user-defined curve)".into(),
+                    summary: format!(
+                        "sparse user-defined supply curve {}: default service_time({}) = {:?}: {}",
+                        text, dem, claimed, why
+                    ),
+                    replay: format!(
+                        "rtasim-replay 1\nproperty C09\nengine supply\nkind sparse-curve\nrle {}\nexpect demand={}\nnote seed={} item={}\n",
+                        text, dem, root, k
+                    ),
+                });
+                return;
+            }
+            acc.counters.inc("probe.sparse_inverse_exact");
+        }
+    } else {
+        let p = match rng.below(3) {
+            0 => rng.range(40, 200),
+            1 => rng.range(200, 800),
+            _ => rng.range(800, 3000),
+        };
+        let q = match rng.below(3) {
+            0 => 1,
+            1 => rng.range(1, 5.min(p)),
+            _ => rng.range(1, (p / 4).max(1)),
+        };
+        let sup = if rng.chance(1, 2) {
+            SupDesc::Periodic(q, p)
+        } else {
+            SupDesc::Constrained(q, rng.range(q, p), p)
+        };
+        let fpv = hash_str(&format!("{}", sup)) ^ 0x53;
+        fps.insert(fpv);
+        acc.digest_add(fpv);
+        let real = sup.build();
+        for dem in demands {
+            for which in ["default", "specialised"] {
+                let claimed = guarded(|| {
+                    if which == "default" {
+                        du(OnlySbf(&*real).service_time(s(dem)))
+                    } else {
+                        du(real.service_time(s(dem)))
+                    }
+                });
+                let ps = |t: u64| guarded(|| su(real.provided_service(d(t))));
+                let verdict = match claimed {
+                    None => Err("service_time panicked".to_string()),
+                    Some(c) => match is_least_inverse(&ps, dem, c) {
+                        Some(v) => v,
+                        None => Err("provided_service panicked".to_string()),
+                    },
+                };
+                if let Err(why) = verdict {
+                    acc.report(Report {
+                        order: (k, dem),
+                        key: format!("{} service_time is not the least inverse of provided_service (sparse reservation)", which),
+                        summary: format!(
+                            "{}: {} service_time({}) = {:?}: {}",
+                            sup, which, dem, claimed, why
+                        ),
+                        replay: format!(
+                            "rtasim-replay 1\nproperty C09\nengine supply\nkind sparse-inverse\nsupply {}\nexpect demand={} which={}\nnote seed={} item={}\n",
+                            sup, dem, which, root, k
+                        ),
+                    });
+                    return;
+                }
+                acc.counters.inc("probe.sparse_inverse_exact");
+            }
+        }
+    }
+}
+
 pub fn all_configs(max_p: u64) -> Vec<SupDesc> {
     let mut v = vec![SupDesc::Dedicated];
     for p in 1..=max_p {
@@ -809,6 +983,7 @@ pub fn run_c09(opt: &Options) -> i32 {
         .collect();
     let n_exh = exh_configs.len() as u64;
     let n_syn = tables / 4;
+    let n_sparse = tables / 40;
     let fin = |mut acc: Acc| -> i32 {
         let wall = t0.elapsed().as_secs_f64();
         let mut cov = Json::obj();
@@ -854,7 +1029,7 @@ pub fn run_c09(opt: &Options) -> i32 {
         );
         out.exit_code
     };
-    run_parallel_then(n_cfg + tables + n_exh + n_syn, opt.jobs, 60, |k, acc, note| {
+    run_parallel_then(n_cfg + tables + n_exh + n_syn + n_sparse, opt.jobs, 60, |k, acc, note| {
         if k < n_cfg {
             supply_item(&sh, k, acc, note)
         } else if k < n_cfg + tables {
@@ -863,8 +1038,10 @@ pub fn run_c09(opt: &Options) -> i32 {
             let e = &exh_configs[(k - n_cfg - tables) as usize];
             note(&format!("C09 exhaustive {}", e));
             exhaustive_item(root, k, e, acc, &fps)
-        } else {
+        } else if k < n_cfg + tables + n_exh + n_syn {
             synthetic_item(root, k - n_cfg - tables - n_exh, acc, &fps)
+        } else {
+            sparse_item(root, k - n_cfg - tables - n_exh - n_syn, acc, &fps)
         }
     }, &fin)
 }
@@ -908,6 +1085,69 @@ pub fn replay_supply(path: &str, text: &str) -> i32 {
                 "user-defined curve: default service_time({}) = {} but the least t is {}",
                 dem, claimed, t
             ));
+        }
+        println!("replay: no violation");
+        return 0;
+    }
+    if kind == "sparse-curve" {
+        let inc = match un_rle(&get("rle ").unwrap_or_default()) {
+            Some(v) if v.iter().any(|b| *b) => v,
+            _ => {
+                eprintln!("HARNESS-ERROR: bad run-length curve");
+                return 2;
+            }
+        };
+        let sbf = SynthSbf::new(inc);
+        let dem = field("demand").unwrap_or(1);
+        let claimed = match guarded(|| du(sbf.service_time(s(dem)))) {
+            Some(v) => v,
+            None => return viol("default service_time panicked".into()),
+        };
+        if let Some(Err(why)) = is_least_inverse(&|t| Some(sbf.value(t)), dem, claimed) {
+            return viol(format!(
+                "sparse user-defined curve: default service_time({}) = {}: {}",
+                dem, claimed, why
+            ));
+        }
+        println!("replay: no violation");
+        return 0;
+    }
+    if kind == "sparse-inverse" {
+        let sup = match crate::desc::parse_supply(&get("supply ").unwrap_or_default()) {
+            Ok(sd) => sd,
+            Err(e) => {
+                eprintln!("HARNESS-ERROR: {}", e);
+                return 2;
+            }
+        };
+        let real = sup.build();
+        let dem = field("demand").unwrap_or(1);
+        let which_default = expect.contains("which=default");
+        let claimed = guarded(|| {
+            if which_default {
+                du(OnlySbf(&*real).service_time(s(dem)))
+            } else {
+                du(real.service_time(s(dem)))
+            }
+        });
+        let claimed = match claimed {
+            Some(v) => v,
+            None => return viol(format!("{}: service_time({}) panicked", sup, dem)),
+        };
+        let ps = |t: u64| guarded(|| su(real.provided_service(d(t))));
+        match is_least_inverse(&ps, dem, claimed) {
+            Some(Ok(())) => {}
+            Some(Err(why)) => {
+                return viol(format!(
+                    "{}: {} service_time({}) = {}: {}",
+                    sup,
+                    if which_default { "default" } else { "specialised" },
+                    dem,
+                    claimed,
+                    why
+                ))
+            }
+            None => return viol(format!("{}: provided_service panicked", sup)),
         }
         println!("replay: no violation");
         return 0;
